@@ -760,7 +760,9 @@ def gen_cases(rng, tier):
             "splitter": sp, "off": rng.choice([0, 0, 5]),
             "y": [rng.randint(1, 9) for _ in range(n)],
             "X": [rng.randint(-2, 4) for _ in range(n)] if with_x else None,
-            "strategy": rng.choice(["refit", "refit", "update"]),
+            # (randomized searches: update half of the time - both searches must honour it)
+            "strategy": rng.choice(["refit", "update"] if search == "random"
+                                   else ["refit", "refit", "update"]),
             "metric": rng.choice(TUNE_METRICS), "refit": rng.random() < 0.75,
             "fit_fh": fit_fh,
             "script": {"fh1": fh1, "fh2": fh2, "ynew": [rng.randint(1, 9) for _ in range(m)],
